@@ -462,3 +462,6 @@ B('C19.separator-run-recounted', ['C19'], [(P + 'common/parse.py',
 N('benign.separator-count-named', [(P + 'common/parse.py',
   "            item_offset += self._check_separators(name, item_offset, separator, 1, max_separator_count)\n",
   "            separator_count = self._check_separators(name, item_offset, separator, 1, max_separator_count)\n            item_offset += separator_count\n")])
+# the renegotiation SCSV written only for a hello without extensions: the flag of a hello that has some does not survive compose / parse
+B('C06.scsv-depends-on-extensions', ['C06', 'C05', 'C01'], [(P + 'tls/subprotocol.py', "        if self.empty_renegotiation_info_scsv:\n",
+  "        if self.empty_renegotiation_info_scsv and not len(self.extensions):\n")], mention=['C06.R9', 'EMPTY_RENEGOTIATION_INFO_SCSV'])
